@@ -1,0 +1,75 @@
+//go:build verif
+// +build verif
+
+package geometry
+
+// Exports for the verification harness (/verif). Compiled only with -tags verif.
+// Add-only: nothing here changes the behaviour of the package.
+
+// VerifProcessPoints exposes processPoints.
+func VerifProcessPoints(points []Point, closed bool) (convex bool, rect Rect, clockwise bool) {
+	return processPoints(points, closed)
+}
+
+// VerifRingContainsPoint exposes ringContainsPoint.
+func VerifRingContainsPoint(ring Ring, point Point, allowOnEdge bool) (hit bool, idx int) {
+	res := ringContainsPoint(ring, point, allowOnEdge)
+	return res.hit, res.idx
+}
+
+// VerifRingContainsSegment exposes ringContainsSegment.
+func VerifRingContainsSegment(ring Ring, seg Segment, allowOnEdge bool) bool {
+	return ringContainsSegment(ring, seg, allowOnEdge)
+}
+
+// VerifRingIntersectsSegment exposes ringIntersectsSegment.
+func VerifRingIntersectsSegment(ring Ring, seg Segment, allowOnEdge bool) bool {
+	return ringIntersectsSegment(ring, seg, allowOnEdge)
+}
+
+// VerifRingContainsRing exposes ringContainsRing.
+func VerifRingContainsRing(ring, other Ring, allowOnEdge bool) bool {
+	return ringContainsRing(ring, other, allowOnEdge)
+}
+
+// VerifRingIntersectsRing exposes ringIntersectsRing.
+func VerifRingIntersectsRing(ring, other Ring, allowOnEdge bool) bool {
+	return ringIntersectsRing(ring, other, allowOnEdge)
+}
+
+// VerifRingContainsLine exposes ringContainsLine.
+func VerifRingContainsLine(ring Ring, line *Line, allowOnEdge bool) bool {
+	return ringContainsLine(ring, line, allowOnEdge)
+}
+
+// VerifRingIntersectsLine exposes ringIntersectsLine.
+func VerifRingIntersectsLine(ring Ring, line *Line, allowOnEdge bool) bool {
+	return ringIntersectsLine(ring, line, allowOnEdge)
+}
+
+// VerifNewRing exposes newRing.
+func VerifNewRing(points []Point, opts *IndexOptions) Ring {
+	return newRing(points, opts)
+}
+
+// VerifLineSeries returns the series of a line.
+func VerifLineSeries(line *Line) Series {
+	return &line.baseSeries
+}
+
+// VerifIndexBytes returns the compressed index of a series, or nil.
+func VerifIndexBytes(series Series) []byte {
+	if b, ok := series.Index().([]byte); ok {
+		return b
+	}
+	return nil
+}
+
+// VerifNumBytes, VerifAppendNum, VerifReadNum expose the variable-width codec.
+func VerifNumBytes(n uint32) byte                        { return numBytes(n) }
+func VerifAppendNum(dst []byte, n uint32, w byte) []byte { return appendNum(dst, n, w) }
+func VerifReadNum(data []byte, w byte) uint32            { return readNum(data, w) }
+
+// VerifChooseQuad and VerifQuadBounds expose the quadtree geometry.
+func VerifChooseQuad(bounds, rect Rect) int   { return new(qNode).chooseQuad(bounds, rect) }
+func VerifQuadBounds(bounds Rect, q int) Rect { return quadBounds(bounds, q) }
